@@ -222,6 +222,8 @@ def _branch(prefix, n, kind="task"):
             sts.append((nm, Pass(Result=nm)))
         elif kind == "wait":
             sts.append((nm, Wait(1 + i)))
+        elif kind == "wait0":
+            sts.append((nm, Wait(0)))
     return chain(*sts)
 
 def _okworkers(defn, override=None):
@@ -292,6 +294,11 @@ def fanout_fail_family(tier="quick"):
         # sibling in a Wait
         d = chain(("P", Parallel([_branch("A", 1), _branch("B", 1, "wait")], **h)), Z)
         out.append(scenario("parfail-A-task-Bwait-%s" % hname, d, workers=_okworkers(d, {"f_A1": {"*": ERR()}}), family="parfail-wait-sibling-%s" % hname))
+        # sibling in a zero-delay Wait (its timer is armed but has not fired when the failure is handled)
+        d = chain(("P", Parallel([_branch("A", 1), chain(("B1", Wait(0)))], **h)), Z)
+        out.append(scenario("parfail-A-task-Bwait0-%s" % hname, d, workers=_okworkers(d, {"f_A1": {"*": ERR()}}), family="parfail-wait0-sibling-%s" % hname))
+        d = chain(("P", Parallel([chain(("A1", Fail("E1", "failstate"))), chain(("B1", Wait(0)), ("B2", Pass()))], **h)), Z)
+        out.append(scenario("parfail-A-failstate-Bwait0-%s" % hname, d, workers={}, family="parfail-failstate-wait0-%s" % hname))
         # Fail state branch (no task): sibling Task
         d = chain(("P", Parallel([chain(("A1", Fail("E1", "failstate"))), _branch("B", 1)], **h)), Z)
         out.append(scenario("parfail-A-failstate-%s" % hname, d, workers=_okworkers(d), family="parfail-failstate-%s" % hname))
